@@ -51,7 +51,8 @@ def run_shard(spec):
     return acc.done()
 
 
-def run_variant(acc, spec, wd, sch, names, tagmap, w, rng, variant):
+def run_variant(acc, spec, wd, sch, names, tagmap, w, rng, variant, prop=None, prefix=''):
+    prop = prop or PROP
     if True:
         text = sch.to_prophy()
         try:
@@ -123,20 +124,20 @@ def run_variant(acc, spec, wd, sch, names, tagmap, w, rng, variant):
                 # known finding: any deviation on such a type is attributed to it, nothing else is judged
                 upto = len(le) if tail_off is None else tail_off
                 if 'crash' in r or r.get('O', b'')[:upto] != le[:upto] or (tail_off is None and r.get('ret') != len(le)):
-                    acc.violation(PROP, CC.PART_ALIGN_MECH, witness(returned_offset=r.get('ret')))
+                    acc.violation(prop, prefix + CC.PART_ALIGN_MECH, witness(returned_offset=r.get('ret')))
                 else:
                     acc.count('swaps_completed')
                 continue
             if 'crash' in r:
                 mech, frames = CC.crash_mechanism(r)
-                acc.violation(PROP, 'sanitizer:' + mech, witness(report=r['crash'][:3000], frames=frames))
+                acc.violation(prop, prefix + 'sanitizer:' + mech, witness(report=r['crash'][:3000], frames=frames))
                 continue
             acc.count('swaps_completed')
             out = r.get('O', b'')
             upto = len(le) if tail_off is None else tail_off
             if out[:upto] != le[:upto]:
                 off = C.first_diff(out[:upto], le[:upto])
-                acc.violation(PROP, 'swapped-bytes-differ:%s' % C.span_at(spans, off)[0],
+                acc.violation(prop, prefix + 'swapped-bytes-differ:%s' % C.span_at(spans, off)[0],
                               witness(swapped=C.hexs(out), first_diff=off, compared_prefix=upto))
                 continue
             exp_ret = len(le) if tail_off is None else tail_off
@@ -144,10 +145,10 @@ def run_variant(acc, spec, wd, sch, names, tagmap, w, rng, variant):
                 mech = 'returned-pointer' + ('-greedy' if tail_off is not None else '')
                 if tail_off is not None and r.get('ret') == W.roundup(tail_off, w.tinfo(n)[1]):
                     mech = CC.GREEDY_RET_MECH
-                acc.violation(PROP, mech, witness(returned_offset=r.get('ret'), expected_offset=exp_ret))
+                acc.violation(prop, prefix + mech, witness(returned_offset=r.get('ret'), expected_offset=exp_ret))
                 continue
             if r.get('guard_changed'):
-                acc.violation(PROP, 'bytes-outside-message-changed', witness(changed=r['guard_changed']))
+                acc.violation(prop, prefix + 'bytes-outside-message-changed', witness(changed=r['guard_changed']))
                 continue
             acc.count('bytes_compared', upto)
             if len(acc.p['samples']) < 2 and C.nontrivial(spans, stiff) and len(be) < 80:
@@ -157,7 +158,7 @@ def run_variant(acc, spec, wd, sch, names, tagmap, w, rng, variant):
             if rep.get('timeout'):
                 acc.p['inconclusive'] = 'driver watchdog fired'
             else:
-                acc.violation(PROP, 'sanitizer-at-exit:' + (cppdrv.san_class(rep.get('stderr', '')) or 'rc=%s' % rep.get('rc')),
+                acc.violation(prop, prefix + 'sanitizer-at-exit:' + (cppdrv.san_class(rep.get('stderr', '')) or 'rc=%s' % rep.get('rc')),
                               {'schema': sch.to_prophy()[:3000], 'report': rep.get('stderr', '')[:3000]})
 
 
